@@ -114,6 +114,42 @@ def compare(name, cl, cs, where):
                      K=64, scale=abs(complex(cs[1])) + 1)
 
 
+def expected_sign_pattern(name, args, x):
+    """for the sign primitives: array over all dense positions of x with the
+    sign the documented operation multiplies each element by (exactly once);
+    None for other operations"""
+    from ..model import graded as GR
+
+    symm = D.symm_of(x)
+    cms = [dict(ix.chargemap) for ix in x.indices]
+    pars = [D.position_parities(symm, cm) for cm in cms]
+    shape = [len(p) for p in pars]
+    one = np.ones(shape, dtype=int)
+    nd = x.ndim
+    if name in ("phase_sync", "copy"):
+        return one
+    if name == "phase_global":
+        return -one
+    if name == "phase_flip":
+        S = one
+        for ax in args["axes"]:
+            S = S * (1 - 2 * GR._bcast(pars[ax], ax, nd))
+        return S
+    if name == "phase_transpose":
+        return GR.perm_sign_array(pars, list(args["perm"]))
+    if name == "phase_sector":
+        sec = sorted(x.blocks)[args["k"] % len(x.blocks)]
+        S = one.copy()
+        sl = []
+        for ax, c in enumerate(sec):
+            offs, _ = D.offsets(cms[ax])
+            st_, d = offs[c]
+            sl.append(slice(st_, st_ + d))
+        S[tuple(sl)] = -1
+        return S
+    return None
+
+
 def first_array(res):
     for y in ops.arrays_in(res):
         if ops.is_arr(y):
@@ -187,6 +223,15 @@ def run_history(ch, L, S, nsteps, weights, min_done=2, min_hits=1):
                               f"{cs if okc else cl} {where}")
         if okc:
             compare(op.name, cl, cs, where)
+        if op.group == "phase" or op.name == "copy":
+            # the sign primitives: each requested sign is applied to the
+            # value exactly once (and to nothing else)
+            S_ = expected_sign_pattern(op.name, args, L)
+            if S_ is not None and L.blocks and D.dense_of(L).dtype != bool:
+                ref = [dict(ix.chargemap) for ix in L.indices]
+                dense_equal(D.dense_of(rL, ref=ref), S_ * D.dense_of(L),
+                            f"{op.name}:sign-semantics",
+                            what=f"value after {op.name}({args}) {where}")
         done.append(op.name)
         nl, ns = first_array(rL), first_array(rS)
         if (nl is not None and ns is not None and nl.fermionic
